@@ -3,6 +3,7 @@ import z3
 from pyvc import sym
 from pyvc.sym import Val, is_none, is_bool, is_int, is_ref, b_of, i_of, r_of, mk_bool, mk_int
 from pyvc.contract import Contract, P, Raises, Loop
+from pyvc.values import SV
 from . import spec as S
 
 N = 'awesomeyaml/nodes/node.py::'
@@ -68,8 +69,9 @@ def register(R):
     # ---- _replace_self / _replace_other ------------------------------------------------------
     for fn in ('_replace_self', '_replace_other'):
         R.add(Contract(N + 'ConfigNode.' + fn, [node(), node('other'), P.const('allow_promotions', False)], name='no-promotion',
-                       requires=lambda c: z3.And(S.valid_flags(c.pre, c.ref('self')), S.valid_flags(c.pre, c.ref('other')),
-                                                 z3.Not(S.is_composed(c.eng, c.pre.cls(c.ref('self'))))),
+                       requires=(lambda c: z3.And(S.valid_flags(c.pre, c.ref('self')), S.valid_flags(c.pre, c.ref('other')),
+                                                  z3.Not(S.is_composed(c.eng, c.pre.cls(c.ref('self')))))) if fn == '_replace_self' else
+                                (lambda c: z3.And(S.valid_flags(c.pre, c.ref('self')), S.valid_flags(c.pre, c.ref('other')))),
                        modifies=lambda c: [(f, [c.ref('self')]) for f in ('_priority', '_delete', '_safe', '_implicit_safe', '_default_safe', '_metadata')],
                        result=lambda c, it: c.a['self'],
                        ensures=_replace_ensures(fn), opts={'callee': True}, props=('C03', 'C07')))
@@ -117,3 +119,33 @@ def _replace_ensures(fn):
                     lambda c: z3.And(c.post.get('_priority', c.ref('self')) == c.pre.get('_priority', c.ref('self')),
                                      c.post.get('_delete', c.ref('self')) == c.pre.get('_delete', c.ref('self')))))
     return out
+
+
+def register_leaf_merge(R):
+    node = lambda n='self': P.node(n, 'ConfigNode')
+    W = ('_priority', '_delete', '_safe', '_implicit_safe', '_default_safe', '_metadata')
+
+    def ens(c):
+        s, o = c.ref('self'), c.ref('other')
+        older_wins = S.prio(c.pre, s) > S.prio(c.pre, o)
+        win = z3.If(older_wins, s, o)
+        lose = z3.If(older_wins, o, s)
+        res = r_of(c.rt)
+        return [('C02+C03.older-wins-only-if-strictly-stronger-else-newer', c.rt == z3.If(older_wins, c['self'], c['other'])),
+                ('C03.winner-keeps-its-priority-and-delete-flag', z3.And(c.post.get('_priority', res) == c.pre.get('_priority', win),
+                                                                        c.post.get('_delete', res) == c.pre.get('_delete', win))),
+                ('C03.metadata-of-both-kept-winner-wins', S.md_union(S.md(c.post, res), S.md(c.pre, lose), S.md(c.pre, win))),
+                ('C07.result-safe-only-if-both-were', z3.Implies(S.safe(c.post, res), z3.And(S.safe(c.pre, s), S.safe(c.pre, o)))),
+                ('C02.loser-untouched', z3.And([c.post.get(f, lose) == c.pre.get(f, lose) for f in W])),
+                ('flags-stay-valid', S.valid_flags(c.post, res))]
+
+    R.add(Contract(N + 'ConfigNode.ayns.on_merge_impl', [node(), P.path('path'), node('other')],
+                   requires=lambda c: z3.And(S.valid_flags(c.pre, c.ref('self')), S.valid_flags(c.pre, c.ref('other'))),
+                   modifies=lambda c: [(f, [c.ref('self'), c.ref('other')]) for f in W],
+                   ensures=[('leaf-merge', ens)], result=lambda c, it: SV(z3.If(S.prio(c.pre, c.ref('self')) > S.prio(c.pre, c.ref('other')), c['self'], c['other'])),
+                   props=('C02', 'C03', 'C07'), opts={'callee': True}))
+
+
+def _reg_all(R):
+    register(R)
+    register_leaf_merge(R)
